@@ -1760,8 +1760,8 @@ type t3Wrap struct {
 var t3Wraps = []t3Wrap{
 	{'n', 'n', "(%s) + 1", false},
 	{'n', 'n', "2 * (%s)", false},
-	{'n', 'n', "(%s) + 1 + 2", true},  // (X + 1) + 2  =>  X + (1 + 2)  =>  X + 3
-	{'n', 'n', "1 + 2 + (%s)", true},  // (1 + 2) + X  =>  3 + X
+	{'n', 'n', "(%s) + 1 + 2", true}, // (X + 1) + 2  =>  X + (1 + 2)  =>  X + 3
+	{'n', 'n', "1 + 2 + (%s)", true}, // (1 + 2) + X  =>  3 + X
 	{'n', 'n', "(%s) * 2 * (1 + 1)", true},
 	{'n', 'n', "strlen(str(%s))", false},
 	{'n', 'n', "(3 - 3) + (%s)", true},
@@ -1777,8 +1777,8 @@ var t3Wraps = []t3Wrap{
 	{'s', 'n', "strlen(%s)", false},
 	{'b', 'b', "(%s) & value != 'q'", false},
 	{'b', 'b', "value != 'q' & (%s)", false},
-	{'b', 'b', "2 > 1 & (%s)", true},  // true & X  =>  X
-	{'b', 'b', "(%s) | 1 > 2", true},  // X | false =>  X
+	{'b', 'b', "2 > 1 & (%s)", true}, // true & X  =>  X
+	{'b', 'b', "(%s) | 1 > 2", true}, // X | false =>  X
 	{'b', 'b', "!(%s)", false},
 	{'b', 'b', "value = 'q' | (%s)", false},
 	{'b', 'b', "(%s) & key ^= 'k'", false}, // narrows the scan to a prefix
